@@ -80,7 +80,23 @@ _reg("C09", c09.run, theorems=["NirVerif.C09.iff", "NirVerif.C09.rejects"],
                 "returns True iff every edge joins a defined output shape to an equal defined input shape, and otherwise "
                 "raises ValueError. The model is tied to _check_types by differential testing on enumerated and sampled graphs.",
      level_note="Lean kernel; hand-written model of _check_types and of np.array_equal on shape values; correspondence sampling.")
-_reg("C10", c10.run)
+_reg("C10", c10.run,
+     theorems=["NirVerif.Model.workList", "NirVerif.C10.frame", "NirVerif.C10.untouched", "NirVerif.C10.reach",
+               "NirVerif.C10.idempotent_partial"],
+     rule="All multigraphs over 9 node archetypes (typed/untyped Input, element-wise, Flatten, Conv, pooling, typed/untyped "
+          "Output) on <=2 nodes with <=2 edges (thorough: plus a 10% sample on 3 nodes); consistent graphs with cycles, "
+          "self-loops, parallel edges under all edge permutations (<=4 edges); arbitrary graphs with unreachable "
+          "components, dangling edges and nested sub-graphs. Each run under a 5 s watchdog, with deep snapshots before/"
+          "after and a second run.",
+     level_text="Kernel-checked: (1) termination - the modelled work-list is a well-founded recursion accepted by Lean "
+                "with its decreasing proof for every multigraph; (2) frame - edges, names, order, kinds, metadata and "
+                "every field are unchanged except an undefined-output Conv's input_shape, success or exception; (3) a "
+                "node not reachable from an Input is returned unchanged; (4) after a successful run every reachable "
+                "node has both types defined (closure of the work-list under successors); (5) PARTIAL idempotence: on a "
+                "graph whose edges are all fixed points of the loop body a further run is the identity. The full "
+                "idempotence statement is kept as `idempotent_full : Prop` and is only tested, not proved.",
+     level_note="Lean kernel; hand-written model of _forward_type_inference (active definition); object identity and "
+                "the real loop's termination are exhibited by the correspondence run (watchdog), not by the theorem.")
 _reg("C11", c11.run,
      theorems=["NirVerif.C11.names_injective", "NirVerif.C11.names_distinct", "NirVerif.C11.names_scheme", "NirVerif.C11.shape"],
      translator=("T1", "T2"),
